@@ -341,6 +341,10 @@ class Tr:
         for s in stmts:
             if ast.unparse(s) in self.cfg.get("skip", []):
                 continue   # (extension) a skipped statement binds nothing the translation can see
+            if ast.unparse(s) in self.cfg.get("bind", {}):
+                for pyname, _, _ in self.cfg["bind"][ast.unparse(s)]:
+                    add(pyname)
+                continue
             if isinstance(s, ast.Assign):
                 for t in s.targets:
                     if isinstance(t, ast.Subscript) and ast.unparse(t) in self.cfg.get("setitem", {}):
@@ -384,6 +388,15 @@ class Tr:
         if text in self.cfg.get("skip", []):
             self.skipped.append(text)
             return self.block(rest, env, kont)
+        if text in self.cfg.get("bind", {}):
+            # (extension) a statement the table replaces by bindings, e.g. `a, b = f()` -> [(python name, code, type), ...]
+            env2 = dict(env)
+            code = ""
+            for pyname, c, t in self.cfg["bind"][text]:
+                code += "let %s := %s in\n" % (pyname, c)
+                env2[pyname] = (pyname, t)
+            self.skipped.append(text)
+            return code + self.block(rest, env2, kont)
         if isinstance(s, ast.Expr) and isinstance(s.value, ast.Constant) and isinstance(s.value.value, str):
             return self.block(rest, env, kont)   # docstring
         if isinstance(s, ast.Pass):
@@ -707,7 +720,7 @@ def translate_function(path, qualname, coqname, cfg):
     except Exception as e:  # an internal error of the translator is a rejection, never a crash of the check
         raise TranslateError("translation of %s no longer matches: the statement structure is outside the fragment "
                              "(%s: %s)" % (qualname, type(e).__name__, e))
-    missing = [s for s in cfg.get("skip", []) if s not in tr.skipped]
+    missing = [s for s in list(cfg.get("skip", [])) + list(cfg.get("bind", {})) if s not in tr.skipped]
     if missing:
         raise TranslateError("statements assumed to be skippable are no longer present: %r" % missing)
     return code, tr.skipped
